@@ -459,9 +459,43 @@ def resharded_part(chk):
       chk.violation(f'resharded:{h["kind"]}:exception:{type(e).__name__}', f'{e!r} for {h}', dict(kind='checkpoint-resharded', history=h))
 
 
+def rebatch_part(chk):
+  from harness import lib
+  """A re-batching operator between the source and the consumer (apply(..., batch_size=b) over input batches of another
+  size): rows waiting in the re-batching buffer (Rebatch.tla: `buffer`) when the state is captured are neither
+  delivered nor part of the source position."""
+  from ml_metrics._src.chainables import io, transform
+  for n_in, s_in, b in ((4, 3, 2), (3, 2, 3), (4, 1, 2), (3, 3, 3)):
+    data = [list(range(i * s_in, (i + 1) * s_in)) for i in range(n_in)]
+    full = [x for bt in data for x in bt]
+
+    def mk():
+      return transform.TreeTransform.new(name='p').data_source(io.SequenceDataSource([list(bt) for bt in data])).apply(fn=lib.ident, batch_size=b).make().iterate()
+
+    n_out = len(list(mk()))
+    for cut in range(n_out + 1):
+      it = mk()
+      before = [x for _ in range(cut) for x in next(it)]
+      restored = it.from_state(it.state)
+      after = [x for bt in restored for x in bt]
+      chk.replayed()
+      cfg = f'{n_in} input batches of {s_in} rows, apply(batch_size={b}), state captured after {cut} output batches'
+      ctx = dict(kind='checkpoint-rebatch', input_batches=n_in, input_batch_size=s_in, batch_size=b, cut=cut, before=before, after=after)
+      lost = [x for x in full if x not in before and x not in after]
+      dup = [x for x in before if x in after]
+      if dup:
+        chk.violation('rebatch:restore-repeats-rows', f'[{cfg}] rows {dup} delivered before and after the restore', ctx)
+      elif lost:
+        chk.violation('rebatch:restore-skips-buffered-rows', f'[{cfg}] rows {lost} were waiting in the re-batching buffer and are never delivered '
+                      f'(before {before}, after restore {after})', ctx)
+      elif before + after != full:
+        chk.violation('rebatch:order', f'[{cfg}] {before} + {after} != {full}', ctx)
+
+
 def body(chk):
   threaded_part(chk)
   resharded_part(chk)
+  rebatch_part(chk)
   b = _bounds(chk.tier)
   chk.coverage['bounds'] = b
   chk.assumptions += [
